@@ -26,11 +26,12 @@ const (
 )
 
 type verifC02Child struct {
-	name   string
-	role   int
-	uid    string
-	cached *unstructured.Unstructured
-	live   int // 0 same, 1 replaced under the same name by an unrelated object, 2 gone
+	name    string
+	role    int
+	uid     string
+	cached  *unstructured.Unstructured
+	flagged bool // an accepted write on it was already reported
+	live    int  // 0 same, 1 replaced under the same name by an unrelated object, 2 gone, 3 same object meanwhile taken over by another controller
 }
 
 func verifC02(ssa bool) {
@@ -89,8 +90,33 @@ func verifC02(ssa bool) {
 		}
 		k.cached = o
 		cache = append(cache, o)
-		k.live = rt.Choice("live-"+name, 3)
+		nLive := 3
+		if i == 0 || rt.Tier() == 1 {
+			nLive = 4
+		}
+		k.live = rt.Choice("live-"+name, nLive)
 		switch k.live {
+		case 3:
+			// same object (same UID), but since the cache was filled another
+			// controller adopted it / took it over
+			t := o.DeepCopy()
+			refs, _ := t.Object["metadata"].(map[string]interface{})["ownerReferences"].([]interface{})
+			var kept []interface{}
+			for _, ref := range refs {
+				if m, ok := ref.(map[string]interface{}); ok && m["controller"] == true {
+					continue
+				}
+				kept = append(kept, ref)
+			}
+			if len(kept) == 0 {
+				delete(t.Object["metadata"].(map[string]interface{}), "ownerReferences")
+			} else {
+				t.Object["metadata"].(map[string]interface{})["ownerReferences"] = kept
+			}
+			env.AddOwnerRef(t, env.OwnerRefMap("ex.com/v1", "Thing", "rival", "rival-uid", true))
+			rt.Assume(puid != "rival-uid")
+			t.SetResourceVersion("8")
+			w.Srv.Put("configmaps", t)
 		case 0:
 			w.Srv.Put("configmaps", o)
 		case 1:
@@ -170,7 +196,12 @@ func verifC02(ssa bool) {
 				}
 			} else if r.Accepted {
 				pu, has := verifControllerUID(r.Pre)
-				rt.Assert(has && pu == puid, "ssa-jsonpatch/accepted-on-object-not-controlled-by-parent")
+				if k != nil && k.live == 3 {
+					k.flagged = true
+					rt.Assert(false, "ssa-jsonpatch/accepted-on-object-taken-over-by-another-controller-since-observed")
+				} else {
+					rt.Assert(has && pu == puid, "ssa-jsonpatch/accepted-on-object-not-controlled-by-parent")
+				}
 			}
 		case "update":
 			rt.Assert(k != nil && k.role != roleAbsent, "update/of-object-not-in-cache")
@@ -193,6 +224,7 @@ func verifC02(ssa bool) {
 					rt.Assert(has && pu == puid, "update/accepted-on-object-not-controlled-by-parent")
 				}
 				rt.Assert(string(r.Pre.GetUID()) == k.uid, "update/accepted-on-replaced-object")
+				rt.Assert(k.live != 3, "update/accepted-on-object-taken-over-by-another-controller")
 			}
 		case "delete":
 			rt.Cover("delete")
@@ -208,9 +240,15 @@ func verifC02(ssa bool) {
 			rt.Assert(r.Propagation == "Background", "delete/propagation-not-background")
 			if r.Accepted {
 				rt.Cover("delete-accepted")
-				rt.Assert(k.live == 0, "delete/accepted-on-replaced-object")
-				pu, has := verifControllerUID(r.Pre)
-				rt.Assert(has && pu == puid, "delete/accepted-on-object-not-controlled-by-parent")
+				if k.live == 3 {
+					// same UID, but the controller reference changed hands since the cache was filled
+					k.flagged = true
+					rt.Assert(false, "delete/accepted-on-object-taken-over-by-another-controller-since-observed")
+				} else {
+					rt.Assert(k.live == 0, "delete/accepted-on-replaced-object")
+					pu, has := verifControllerUID(r.Pre)
+					rt.Assert(has && pu == puid, "delete/accepted-on-object-not-controlled-by-parent")
+				}
 			} else if k.live == 1 {
 				rt.Cover("delete-of-replaced-object-refused")
 			}
@@ -220,6 +258,16 @@ func verifC02(ssa bool) {
 	}
 	// objects controlled by someone else and non-matching orphans stay untouched in the store
 	for _, k := range kids {
+		if k.live == 3 && !k.flagged {
+			rt.Cover("taken-over-by-rival")
+			cur := w.Srv.Peek("configmaps", "ns", k.name)
+			rt.Assert(cur != nil, "rival/object-removed")
+			if cur != nil {
+				rt.Assert(cur.GetResourceVersion() == "8", "rival/object-modified")
+				cu, has := verifControllerUID(cur)
+				rt.Assert(has && cu == "rival-uid", "rival/controller-reference-changed")
+			}
+		}
 		if (k.role == roleForeignMatching || k.role == roleOrphanNonMatching) && k.live == 0 {
 			cur := w.Srv.Peek("configmaps", "ns", k.name)
 			pfx := ""
